@@ -489,6 +489,9 @@ func (w *srvWorld) generate() {
 		a := &action{Kind: aCancel, Invoke: -1, Return: -1, CancelSeq: -1}
 		if len(ids) > 0 && g.Chance("cancelknown", 0.85) {
 			a.ID = ids[g.Int("cancelid", len(ids))]
+		} else if w.cfg.Pushes > 0 && g.Chance("cancelcallbackid", 0.6) {
+			// an id no inbound request may be using, but a callback of the server does
+			a.ID = strconv.Itoa(1 + g.Int("cancelcbid", 4))
 		} else {
 			a.ID = "9999"
 		}
@@ -1239,8 +1242,18 @@ func (w *srvWorld) cancelRequested(m *member) bool {
 	if m.Script.CancelID == "waiting" {
 		return true
 	}
+	// A CancelRequest that had returned before the request even arrived named an
+	// unknown id at the time and does nothing: it excuses nothing.
+	arrive := -1
+	for _, msg := range w.msgs {
+		for _, mm := range msg.Members {
+			if mm == m {
+				arrive = msg.Arrive
+			}
+		}
+	}
 	for _, a := range w.acts {
-		if a.Kind == aCancel && a.ID == m.ID && a.Invoke >= 0 {
+		if a.Kind == aCancel && a.ID == m.ID && a.Invoke >= 0 && (a.Return < 0 || arrive < 0 || a.Return >= arrive) {
 			return true
 		}
 	}
